@@ -147,12 +147,13 @@ type c07Case struct {
 }
 
 type cutObs struct {
-	r       *harness.Rig
-	evs     []harness.Event
-	replies []harness.Reply // without the banner
-	rawOut  []byte
-	perr    error
-	incon   string
+	r        *harness.Rig
+	evs      []harness.Event
+	replies  []harness.Reply // without the banner
+	rawOut   []byte
+	perr     error
+	incon    string
+	deadlock string
 }
 
 // runCut plays the first cut octets of the conversation and then loses the
@@ -193,6 +194,7 @@ func runCut(b convBuilt, s convSpec, cut int, fault string, cfg harness.Config, 
 	rest, fin := w.Finish()
 	if !fin {
 		o.incon = "watchdog while finishing"
+		o.deadlock = w.Deadlock
 		return o
 	}
 	o.rawOut = w.Out
@@ -213,6 +215,9 @@ func c07Run(c c07Case) Verdict {
 		c.Cut = len(b.stream)
 	}
 	o := runCut(b, c.Conv, c.Cut, c.Fault, harness.Config{}, harness.Script{})
+	if o.deadlock != "" {
+		return failf("deadlock", "stream cut at %d (%s): the server is deadlocked:\n%s", c.Cut, c.Fault, trimTo(o.deadlock, 2500))
+	}
 	if o.incon != "" {
 		return Verdict{Inconclusive: o.incon}
 	}
@@ -354,7 +359,7 @@ func c07AbandonRun(c c07AbandonCase) Verdict {
 	_ = closes
 	_, fin := w.Finish()
 	if !fin {
-		return Verdict{Inconclusive: "watchdog while finishing"}
+		return finishFail(w)
 	}
 	v := Verdict{NonTrivial: true, Classes: []string{"abandon_" + c.Action}}
 	if p := r.Log.Panicked(); p != "" {
